@@ -2,7 +2,7 @@
    Property theorems only: each is closed by [exact] of a lemma of
    ProofsA/B/C or Bridge and followed by Print Assumptions. *)
 From Coq Require Import String List ZArith NArith Bool Permutation.
-From VF.C06 Require Import Model ProofsA ProofsB ProofsC ProofsD ProofsE Bridge.
+From VF.C06 Require Import Model ProofsA ProofsB ProofsC ProofsD ProofsE ProofsF Bridge.
 From VF.gen Require Import C06MapRanges.
 Import ListNotations.
 Local Open Scope Z_scope.
@@ -138,6 +138,28 @@ Print Assumptions C06_builder_validator.
 Theorem C06_full_holds : C06_full.
 Proof. exact (conj process_block_deterministic builder_validator). Qed.
 Print Assumptions C06_full_holds.
+
+(* ---------------------------------------------------------------------- *)
+(* 6a. the block gas pool.  The block-level theorems above treat "the
+       transaction can be applied" as one oracle on both sides; that is sound only
+       if the builder's pool is never fuller than an importer's.  For EVERY
+       candidate sequence (any gas limits, any mix of applied transactions and of
+       the four ways a candidate fails at build time, 0 <= used <= limit) the
+       importer's pool never underflows on what the worker admitted and ends at
+       least as full as the worker's; the gas used stays within the block limit *)
+Theorem C06_gas_pool_never_underflows :
+  forall gas_limit cands, 0 <= gas_limit -> Forall gtx_wf cands ->
+    let a := worker_gas_run worker_gas_step (mkGacc gas_limit [] []) cands in
+    exists p, importer_gas gas_limit (ga_incl a) = Some p /\ 0 <= ga_pool a <= p.
+Proof. exact gas_pool_never_underflows. Qed.
+Print Assumptions C06_gas_pool_never_underflows.
+
+Theorem C06_gas_used_within_limit :
+  forall gas_limit cands, 0 <= gas_limit -> Forall gtx_wf cands ->
+    fold_left (fun s t => s + g_used t)
+              (ga_incl (worker_gas_run worker_gas_step (mkGacc gas_limit [] []) cands)) 0 <= gas_limit.
+Proof. exact gas_used_within_limit. Qed.
+Print Assumptions C06_gas_used_within_limit.
 
 (* ---------------------------------------------------------------------- *)
 (* 7. forks.  A branch of any length built block after block by the builder
@@ -303,3 +325,19 @@ Proof.
   split; [exact ForkWitness.branch_canonical_accepted | exact ForkWitness.branch_late_side_chain_accepted].
 Qed.
 Print Assumptions C06_nonvacuous_fork.
+
+(* a nearly full block: the drained sender's second transaction is refused inside
+   buyGas, the call whose gas limit exceeds the real remainder is refused by the
+   pool, the importer ends with the worker's pool; with the gas limit "given back"
+   on failure (the seeded variant) the call is admitted and the importer stops with
+   "gas limit reached" *)
+Example C06_nonvacuous_gas_pool :
+  Forall gtx_wf GasWitness.cands /\
+  (let a := worker_gas_run worker_gas_step (mkGacc 1500000 [] []) GasWitness.cands in
+   ga_refused a = [false; false; true; false] /\ length (ga_incl a) = 2%nat /\ ga_pool a = 1454000 /\
+   importer_gas 1500000 (ga_incl a) = Some 1454000) /\
+  (let a := worker_gas_run worker_gas_step_refunding (mkGacc 1500000 [] []) GasWitness.cands in
+   ga_refused a = [false; false; false; false] /\ length (ga_incl a) = 3%nat /\
+   importer_gas 1500000 (ga_incl a) = None).
+Proof. exact (conj GasWitness.wf (conj GasWitness.sound_worker GasWitness.refunding_worker_block_rejected)). Qed.
+Print Assumptions C06_nonvacuous_gas_pool.
